@@ -3,7 +3,6 @@ package rules
 import (
 	"go/token"
 	"go/types"
-	"strings"
 
 	"golang.org/x/tools/go/ssa"
 
@@ -32,6 +31,9 @@ var requestScopedTypes = map[string]bool{
 }
 
 func checkC13(c *Ctx) {
+	if sI := c.senderIface(); sI != nil {
+		requestScopedTypes[ir.TypeStr(sI)] = true
+	}
 	c.R.Explanation = "Static escape/provenance check of request-scoped values on the server request paths (everything reachable from the two ServeHTTP implementations): " +
 		"none is stored into an object the storing function did not allocate itself or into a package variable; no fresh root context is created; contexts handed on derive from the function's own; " +
 		"context functions are folded forward; list filters get the request's ctx and a per-request slice and their result is not retained; context values are injected from the function's own parameters."
@@ -144,7 +146,11 @@ func checkC13(c *Ctx) {
 				return
 			}
 			n := ir.CallName(call)
-			interesting := n == "dynamic" || strings.HasPrefix(n, "(mcp.requestHandler).") || strings.HasPrefix(n, "(mcp.serverNotificationDispatcher).")
+			// dynamic calls and calls through library-declared interfaces (the dispatcher abstractions)
+			interesting := n == "dynamic"
+			if cc := call.Common(); cc.IsInvoke() && cc.Method != nil && cc.Method.Pkg() != nil && cc.Method.Pkg().Path() == ir.RootPath && !cc.Method.Exported() {
+				interesting = true
+			}
 			if !interesting {
 				return
 			}
